@@ -86,6 +86,43 @@ PROPS = {
         "trusted_base": COMMON_TB,
         "assumptions": ["encoding/json marshalling of the node output wrapper only calls ToASM, Addresses, ScriptType and hex on the script (read from txjson_node.go)"],
     },
+    "C10": {
+        "manifest": {
+            "text": "Lean 4 theorems over a model of Tx.change and its wrappers: inputs/version/locktime and every pre-existing output are untouched (only the designated output's value changes for an existing-output destination); outputs never exceed inputs; when change goes to a new non-data output the fee left equals exactly the quoted fee for the estimated final size of the resulting transaction (so it never underpays and the slack is zero), proved through the size algebra |serialize(tx+output)| and UpperLimitInc = growth of the count prefix; when no change is added the transaction is unchanged and the remainder after the change fee is at or below dust (or the output counter is at 2^64-1). Tied to the code by a differential check with amounts enumerated around every threshold, which also evaluates the property's four clauses on the implementation's own result using an independently computed quote.",
+            "note": "Trusted: Lean kernel + standard axioms, harness/generators/comparer, driver glue. Assumes sums of satoshis < 2^64 (no wrap-around), positive byte denominators, non-data change scripts, as the property states. For the existing-output destination the equality with the quoted fee of the *result* is decided by the correspondence predicate (the theorem gives the fee computed from the pre-change estimate).",
+        },
+        "generators": ["C10"],
+        "thorough_seeds": 2,
+        "rule": "P2PKH / inscription funded transactions with 1..4 inputs (unsigned, empty or 100..108-byte unlocking scripts), 0..6 outputs and output counts 251..254, data outputs; nine fee quotes incl. rates above 1 sat/byte and unequal standard/data rates and denominators; destinations: new scripts of 1, 25, 26, 200, 253 bytes and inscriptions, existing index incl. out of range; amounts placed at fee-3 .. fee+100000 and around the fee-with-change threshold. Non-trivial = change operation returned ok.",
+        "nontrivial": lambda op, impl: impl.startswith("ok"),
+        "trusted_base": COMMON_TB,
+        "assumptions": ["satoshi sums < 2^64", "fee quote byte denominators > 0 and non-negative satoshi fields"],
+    },
+    "C11": {
+        "manifest": {
+            "text": "Lean 4 theorems: total = serialised length = standard + data bytes with data = script bytes of outputs starting with OP_RETURN / OP_FALSE OP_RETURN; fee = floor(std x rate) + floor(data x rate); IsFeePaidEnough is true iff outputs <= inputs and inputs - outputs >= fee; estimation fails on a missing or unsupported previous script; the estimate (clone + regenerated 107-byte dummy, length checked by kernel evaluation on every run) is >= the size after filling every empty unlocking script with any script of <= 107 bytes. Tied to the code by a differential check (sizes, estimates, fees, predicates, deficits, error classes) and by signing generated transactions with the library's signer and comparing real signed sizes with the estimate.",
+            "note": "Trusted: Lean kernel + standard axioms, extractor (dummy literal), harness/generators/comparer, driver glue. That go-bk signatures + compressed key yield unlocking scripts of <= 107 bytes is an assumption sampled by the harness (max length recorded in the evidence), not proved.",
+        },
+        "generators": ["C11"],
+        "thorough_seeds": 2,
+        "gen_obligations": ["dummy_length"],
+        "rule": "transactions mixing P2PKH/arbitrary/data outputs (OP_RETURN and OP_FALSE OP_RETURN, empty and large), inputs with missing/unsupported/P2PK/inscription previous scripts, unsigned/empty/signed-size unlocking scripts, nine fee quotes, input amounts steered to fee-2..fee+2; plus transactions signed by the library with derived keys. Non-trivial = op whose estimate succeeded.",
+        "nontrivial": lambda op, impl: "est=ok" in impl or "signed=" in impl,
+        "trusted_base": COMMON_TB + ["fact extractor /verif/extract (dummy unlocking script literal)"],
+        "assumptions": ["library-made P2PKH unlocking scripts are at most 107 bytes (go-bk DER low-S signature <= 72 bytes + hash type byte, 33-byte key)"],
+    },
+    "C12": {
+        "manifest": {
+            "text": "Lean 4 theorems by induction over supplier histories (sequences of batches / exhaustion / error): on success the inputs are the previous inputs followed by every UTXO of the consumed batches in order with the supplier's txid, index, value, script and sequence 0xFFFFFFFF, the estimated deficit of the result is zero, the supplier was called once per consumed batch and only with a positive deficit, each call carrying the deficit of the transaction as extended so far; exhaustion with a remaining deficit is insufficient-funds; outputs/version/locktime are untouched in every case incl. an invalid txid mid-batch. Tied to the code by driving tx.Fund with an instrumented supplier replaying generated histories and comparing outcome, recorded deficits and resulting transaction.",
+            "note": "Trusted: Lean kernel + standard axioms, harness/generators/comparer, driver glue. The deficit estimator is a parameter of the induction (instantiated with the C11 model).",
+        },
+        "generators": ["C12"],
+        "thorough_seeds": 2,
+        "rule": "starting transactions with 0..2 inputs and 0..4 outputs incl. data outputs; histories of 0..5 responses: empty batch, 1..3 UTXOs of 0..30000 sat, exhaustion, supplier error, UTXO with 31-byte txid, nil or non-P2PKH script; nine fee quotes. Non-trivial = at least one supplier call.",
+        "nontrivial": lambda op, impl: "calls=-" not in impl,
+        "trusted_base": COMMON_TB,
+        "assumptions": ["the supplier is a function of the call sequence only (history model)"],
+    },
 }
 
 NOT_APPLICABLE = {}
